@@ -29,7 +29,10 @@ EXPLANATION = (
     "incomplete multi-nucleotide substitution; reads at the borders of the RefSeq-mapped interval; ineligible reads) "
     "with recording stubs; the derived per-op tables (depth observations per reference position, cursors, variant keys, "
     "observation tuples) are compared with the SAM specification and with each other. Coverage.total / Coverage.__init__ "
-    "are folded for the insertion exclusion; _in_region on an interval grid; bin_quality on 0..60."
+    "are folded for the insertion exclusion; _in_region on an interval grid; bin_quality on 0..60. Depth conservation end to end: "
+    "twelve reads (every CIGAR operation, deletions / substitutions inside and outside the RefSeq-mapped part, complete and incomplete "
+    "multi-nucleotide substitutions) through the lifted parser, coverage construction, Coverage constructor and accessors on a partly mapped "
+    "gene, compared position by position with an independent CIGAR interpreter."
 )
 ASSUMPTIONS = ["CIGAR op codes follow the SAM specification / pysam: 0 M, 1 I, 2 D, 4 S, 5 H, 7 =, 8 X",
                "secondary / duplicate flags are not excluded by the statement",
